@@ -19,6 +19,7 @@ append exactly one slot per instruction).
   ('model', [layer..], cost, lr)   layer = ('dense', nin, nout, act, w, b)
                                          | ('convl', (count, depth, fr, fc), (sr, sc), act, f, b)
   ('forward', h) ('mbackward', h) ('mupdate',) ('params',)
+  ('probe', h)  ('gradmutset', h, dims, vals)   wrapper instructions of Model/Probe.v (not model instructions)
 """
 
 import math
@@ -108,6 +109,9 @@ def instr_to_text(ins):
         return "mfreeze %s" % _us(ins[1])
     if n == "probe":
         return "probe %d" % ins[1]
+    if n == "gradmutset":
+        # *h.gradient_mut() = Some(Array::from((dims, vals))): a caller-made gradient written over the stored one
+        return "gradmutset %d %s %s" % (ins[1], _us(ins[2]), _fs(ins[3]))
     raise ValueError("unknown instruction %r" % (ins,))
 
 
@@ -278,6 +282,10 @@ def pinstr_to_coq(ins, tangent=None, dual=False):
     """every instruction is wrapped for Model/Probe.v's interpreter: [PI i] runs the model's own [step]"""
     if ins[0] == "probe":
         return "PProbe %s" % _cn(ins[1])
+    if ins[0] == "gradmutset":
+        if dual:
+            raise ValueError("gradmutset is not rendered over dual numbers")
+        return "PSetGrad %s %s %s" % (_cn(ins[1]), _cns(ins[2]), _cfs(ins[3]))
     return "PI (%s)" % instr_to_coq(ins, tangent, dual)
 
 
